@@ -291,6 +291,10 @@ class Engine:
 
     def proj_read(self, st, v, e):
         k = e[0]
+        if v[0] == "upd" and v[2] == e:
+            return v[3]
+        if v[0] == "upd" and k == "entry" and v[2][0] == "field":
+            return self.proj_read(st, v[1], e)
         if k == "field":
             name = e[1]
             if v[0] == "agg":
@@ -437,6 +441,8 @@ class Engine:
             return ("cast", kind, a, rv["ty"])
         if k == "discr":
             v = self.read_place(st, fr, rv["place"])
+            if v[0] == "optref":
+                v = self.read_loc(st, v[1], v[2])
             return self.discr_of(v, rv)
         if k == "agg":
             fields = [self.operand(st, fr, f) for f in rv["fields"]]
@@ -465,8 +471,10 @@ class Engine:
             for name, d in rv.get("variants", []):
                 if name == v[3]:
                     return ("const", "discr", int(d))
-        if v[0] == "optref":
-            return ("discr", ("optref-of", v[1], v[2]), tuple(tuple(x) for x in rv.get("variants", [])))
+        if v[0] == "upd" and v[2][0] == "downcast":
+            for name, d in rv.get("variants", []):
+                if name == v[2][1]:
+                    return ("const", "discr", int(d))
         return ("discr", v, tuple(tuple(x) for x in rv.get("variants", [])))
 
     # ---------------------------------------------------------------- decisions
@@ -492,6 +500,17 @@ class Engine:
                     return int((kd[1] == t[3][2]) == (t[1] == "Eq"))
                 if kd[0] == "not" and t[3][2] in kd[1]:
                     return int(t[1] != "Eq")
+        if t[0] == "bin" and t[1] in ("Eq", "Ne") and t[2][0] != "discr" and unit_variant(t[3]) is not None:
+            adt, var = unit_variant(t[3])
+            vs = self.variants_of(adt)
+            if vs:
+                kk = [int(dv) for (n, dv) in vs if n == var]
+                kd = st.known.get(("discr", t[2], vs))
+                if kk and kd is not None:
+                    if kd[0] == "is":
+                        return int((kd[1] == kk[0]) == (t[1] == "Eq"))
+                    if kd[0] == "not" and kk[0] in kd[1]:
+                        return int(t[1] != "Eq")
         # Eq(x, c) with a different constant already known equal
         if t[0] == "bin" and t[1] in ("Eq", "Ne"):
             x, c = t[2], t[3]
@@ -1053,8 +1072,16 @@ def _fork_option(eng, st, v):
     if var == "None":
         return [(st, "None", None)]
     if v[0] == "optref":
-        d = ("discr", ("optref-of", v[1], v[2]), OPT_VARIANTS)
         payload = ("ref", v[1], v[2] + (("downcast", "Some"), ("field", "0")), v[3])
+        cur = eng.read_loc(st, v[1], v[2])
+        var = _opt_variant(cur)
+        if var is None and cur[0] == "upd" and cur[2][0] == "downcast":
+            var = cur[2][1]
+        if var == "Some":
+            return [(st, "Some", payload)]
+        if var == "None":
+            return [(st, "None", None)]
+        d = ("discr", cur, OPT_VARIANTS)
     else:
         d = ("discr", v, OPT_VARIANTS)
         payload = ("field", ("variant", v, "Some"), "0")
@@ -1084,8 +1111,12 @@ def m_opt_is_some(eng, st, fr, fn, args, t):
     want = fn["name"] == "is_some"
     if var is not None:
         return _ret(st, mk_bool((var == "Some") == want))
-    d = ("discr", ("optref-of", v[1], v[2]), OPT_VARIANTS) if v[0] == "optref" else ("discr", v, OPT_VARIANTS)
-    return _ret(st, mk_bin("Eq", d, ("const", "discr", 1 if want else 0)))
+    if v[0] == "optref":
+        v = eng.read_loc(st, v[1], v[2])
+        var = _opt_variant(v)
+        if var is not None:
+            return _ret(st, mk_bool((var == "Some") == want))
+    return _ret(st, mk_bin("Eq", ("discr", v, OPT_VARIANTS), ("const", "discr", 1 if want else 0)))
 
 
 def m_opt_as_ref(eng, st, fr, fn, args, t):
